@@ -50,6 +50,9 @@ CHECKS = {
  "C02": ("exploration", "fetch oracle with the harness' own hashes + byte comparison of re-pushed bodies at a recording registry + per-setter equation monitor with re-parse and independent JSON decode",
          "≈62 k cases per quick run: 40 k manifest.New calls over generated texts of all seven manifest types x digest sources (reference / descriptor / header / none, right or wrong) x sha256/sha512 x Content-Type right/wrong/absent; 1.5 k registry fetches (by tag / digest, registry serving other bytes under the name, lying or absent digest header, cache on/off) each followed by a re-push whose PUT body is compared byte for byte; 300 layout fetches; 20 k setter programs of 0-6 calls with the equation (descriptor = hash/len of MarshalJSON = RawBody, media type unchanged, serialisation parses back to every getter) checked after every call; 300 get / edit / get-again histories with the response cache on and off.",
          "At most one requester-side digest source per case (contradictory caller input is a caller error). Signed schema1 is named by its JWS payload digest (fixture from the repository's own tests).", "§3 C02"),
+ "C06": ("exploration", "reference-model monitor (map tag->digest + manifest set) stepped alongside the client with raw-state comparison after every mutation; porcupine linearizability check of concurrent histories",
+         "3 k sequential histories per quick run (40 k thorough) of 4-25 operations over 4 tags x 4 manifests on model registries (tag-delete API on / off, tag-list page size 1/2/3/unlimited), fresh layouts and layouts written by other tools (full image names, adjacent / non-adjacent duplicates, untagged entries, containerd names): every returned value / error class and, after every mutation, the raw stored tags (registry state / parsed index.json incl. layout validity and per-tag entry counts) are compared with the model; 1.2 k concurrent histories of 3-4 goroutines through one client with unique manifests per push, layouts checked with porcupine against a register per tag, under -race.",
+         "Model equivalences as in DESIGN Appendix B. Registries are not checked for linearizability: a tag delete that meets 404 falls back to the documented non-atomic protocol even when the API exists. Pushes of a short tag next to a foreign full-named entry of the same tag are not generated (ambiguous under the two-step lookup).", "§3 C06"),
 }
 NOT_APPLICABLE = {}
 
